@@ -8,6 +8,7 @@ import vlib
 
 sys.path.insert(0, os.path.dirname(os.path.abspath(__file__)))
 import c19_params  # noqa: E402  (the generator of coq/generated/Src_c19_params.v)
+import c19_clones  # noqa: E402  (third extension: the generator of coq/generated/Src_c19_clones.v)
 
 
 MANIFEST = dict(
@@ -32,7 +33,25 @@ MANIFEST = dict(
           "range and does not truncate, and (all histories) such a read never throws after any sequence of assignments. Stage "
           "FACTTAB compares the 285 parameters the 143 factory objects of the compiled library register (names, kinds, bounds, "
           "comparison operators, defaults bit for bit, order, type id) with the constructor chain of their dynamic class in the "
-          "extracted table; failing table entries are reported with the source record as the concrete input."),
+          "extracted table; failing table entries are reported with the source record as the concrete input. "
+          "Third extension (clone clause as theorems): tools/checks/c19_clones.py re-parses, on every run, every class that overrides "
+          "clone() (105 records: 101 out-of-class definitions, 4 in-class ones of the template classes; every textual occurrence of "
+          "`clone() const` must be accounted for) with the return expression classified as CopyOfThis T / DefaultConstructed T / "
+          "CopyOfOther / Unrecognised, and every class of those hierarchies (135: all bases, the classes of owned components, the "
+          "classes whose user-written copy constructor deep-copies clonable objects: solver_t, gboost_model_t, gboost::result_t, "
+          "ml::params_t, functional_t) with bases, data members (value / unique_ptr / vector of unique_ptr / shared_ptr / raw pointer / "
+          "reference, const or not; read twice, by a statement splitter and by a line regex) and the copy constructor (implicit / "
+          "defaulted / deleted / user-written with its member-initialiser list classified per item: base(other), m(other.m), "
+          "m(other.m->clone()) / wlearner::clone(other.m), anything else) into coq/generated/Src_c19_clones.v; proved: every clone() "
+          "is CopyOfThis of its own class, every user-written copy constructor passes `other` to every base and copies / deep-clones "
+          "every data member with an empty body, no member-wise copy aliases mutable state or is ill-formed, and on a semantic model "
+          "(object = class + parameter state + owned components; clone() as the table classifies it) the clone of every object over "
+          "the table equals the object in every state (parameters and components recursively), every history of assignments and "
+          "clones is defined, clones are appended without touching other objects, operations on other objects never change an "
+          "object; refuted with witnesses for DefaultConstructed, a forgotten owning member and a base without `other`. Stage CLONETAB "
+          "replays clone() of every factory object after moving every parameter (and of every line-search solver with every pair of "
+          "configured line-search components: 483 objects, 1500 components) with the extracted table-driven clone and compares class, "
+          "parameters and components with the library's clone."),
     note=("Coq kernel; translator (16 kernels + 4 PrimFloat twins); extraction (ExtrOcamlBasic, ExtrOCamlFloats, "
           "ExtrOCamlInt63); harness + OCaml driver; std::stod is an oracle (its outcome travels with the operation); "
           "FloatAxioms (IEEE specification of PrimFloat) used to prove that the `convertible` guard makes "
@@ -42,7 +61,14 @@ MANIFEST = dict(
           "read is a generator error, never a silent skip) is tied by FACTTAB for everything a factory can return; the 26 table "
           "objects no factory returns (abstract bases, gboost_model_t, program::solver_t, penalty/augmented solvers, ...) and the "
           "parameter(\"name\") uses are proved about the table only; receivers the parser cannot resolve are listed in the evidence "
-          "(source_table.uses_listed_not_checked); ExtrOcamlString added to the extraction."),
+          "(source_table.uses_listed_not_checked); ExtrOcamlString added to the extraction. Third extension: "
+          "tools/checks/c19_clones.py (regex-based; a clone() definition / copy constructor / data member it cannot read is a generator "
+          "error) is tied by stage CLONETAB for the 91 clone() records whose class a factory object or a solver component has; the 14 "
+          "others (lambda_function_t, linear_datasource_t, penalty / gboost / surrogate functions, penalty and augmented-lagrangian "
+          "solvers: clone_table.unreached) and the copy constructors of gboost_model_t, gboost::result_t, ml::params_t, functional_t "
+          "are proved about the table only; the model treats copies as values: justified by C19_copies_no_aliasing (no raw pointer / "
+          "non-const reference / shared_ptr member in the hierarchies; pointers / references to const are shared read-only); copy "
+          "ASSIGNMENT operators and the copy constructor of logger_t (outside the clonable hierarchies) are not in the table."),
     technique="Coq proof over a translated+extracted model, exhaustive + random differential correspondence, direct oracle",
     design="DESIGN.md section 2, C19")
 
@@ -100,6 +126,13 @@ def coq_side():
         scan = c19_params.generate()
     except vlib.CheckError as ex:
         tab_err = str(ex)
+    # third extension: the clone table (clone() overrides classified, class chains, copy constructors)
+    clone_err = None
+    if scan is not None:
+        try:
+            c19_clones.generate(scan)
+        except vlib.CheckError as ex:
+            clone_err = str(ex)
     cres = vlib.coq_check("C19", targets=["theories/Extract_C19.vo", "theories/Properties_C19.vo"])
     if twin_err and cres["ok"]:
         cres["ok"] = False
@@ -108,6 +141,10 @@ def coq_side():
         cres["ok"] = False
         cres["broken"] = "param-table-generator:" + tab_err
         cres["log"] = tab_err + "\n" + cres.get("log", "")
+    if clone_err:
+        cres["ok"] = False
+        cres["broken"] = "clone-table-generator:" + clone_err
+        cres["log"] = clone_err + "\n" + cres.get("log", "")
     cres["scan"] = scan
     return cres
 
@@ -206,8 +243,8 @@ def run(tier, replay=None):
     if drv:
         rc2, mout = vlib.sh([drv], input="\n".join(proto) + "\n", timeout=3000)
         for l in mout.split("\n"):
-            if l.startswith("MISMATCH FACTTAB"):
-                continue                                   # handled by the FACTTAB stage below
+            if l.startswith(("MISMATCH FACTTAB", "MISMATCH CLONETAB")):
+                continue                                   # handled by the FACTTAB / CLONETAB stages below
             if l.startswith(("MISMATCH", "PROPFAIL")):
                 mism.append(l)
             elif l.startswith("MODEL-DONE"):
@@ -231,6 +268,7 @@ def run(tier, replay=None):
     # ---- extension, stage FACTTAB: the table regenerated from the source ------------------------------------------------
     scan = cres.get("scan")
     facttab = {"unreached": [], "done": ""}
+    clonetab = {"unreached": [], "done": ""}
     # (a) the symbolic constants of the generator vs the compiler's values
     consts = {}
     for l in proto:
@@ -257,6 +295,10 @@ def run(tier, replay=None):
     # (b) failing table entries and factory objects that differ from the table (driver lines)
     if drv:
         tabfail = [l for l in mout.split("\n") if l.startswith("TABFAIL ")]
+        # stable order: the offending copy constructor first, then clone() records that are not a copy of *this, then the older
+        # stages, last the clone() records that only fail through a copy constructor of their class chain (one per derived class)
+        tabfail = sorted(tabfail, key=lambda l: 0 if l.split(" ")[1] == "COPYCTOR" else
+                         (1 if l.split(" ")[1] == "CLONE" and "does not return" in l else (3 if l.split(" ")[1] == "CLONE" else 2)))
         factmis = [l for l in mout.split("\n") if l.startswith("MISMATCH FACTTAB")]
         facttab["unreached"] = [l.split(" ", 1)[1] for l in mout.split("\n") if l.startswith("FACTTAB-UNREACHED ")]
         facttab["done"] = next((l for l in mout.split("\n") if l.startswith("FACTTAB-DONE")), "")
@@ -295,6 +337,46 @@ def run(tier, replay=None):
                                 "name": info["name"], "typed_read": info["read"],
                                 "parameters_registered_by_that_class": info["registered"],
                                 "replay": "construct a %s and run %s: %s" % (info["cls"], info["function"], info["code"])})
+            elif w[1] == "CLONE":
+                pay.update({"kind": "a clone() override does not return a copy of *this of its own class (C19_clones_copy_this / "
+                                    "C19_clone_object_equal_independent fail for this record)", "detail": l.split(" :: ", 1)[-1]})
+                recs = getattr(scan, "clones", []) if scan is not None else []
+                if idx < len(recs):
+                    c = recs[idx]
+                    pay.update({"source": "%s:%d  %s::clone() const { %s }" % (c["file"], c["line"], c["cls"], c["src"]),
+                                "classified_as": " ".join(str(x) for x in c["ret"])})
+                if "does not return" not in l:
+                    pay.update({"kind": "clone() copy-constructs through a copy constructor of its class chain that does not copy the whole object "
+                                        "(class_clone_ok false: C19_clone_object_equal_independent fails for objects of this class); see the COPYCTOR record",
+                                "meaning": "the clone loses the parameters (configurable_t base without `other`) or the state of an owned component"})
+                elif idx < len(recs):
+                    c = recs[idx]
+                    pay.update({
+                                "meaning": "the clone of an object of this class does not carry the state of the original: with "
+                                           "std::make_unique<T>() every parameter is back at its default (C19_clone_default_constructed_refuted), "
+                                           "with another class the clone has another dynamic type",
+                                "replay": "auto o = <factory>::all().get(<id of %s>); change any parameter of *o; compare o->clone()->parameters() "
+                                          "with o->parameters() (typeid for a sibling class)" % c["key"]})
+            elif w[1] == "COPYCTOR":
+                pay.update({"kind": "a copy constructor of the clonable hierarchies does not copy the whole object (C19_copy_ctors_complete / "
+                                    "C19_copies_no_aliasing fail for this class)", "detail": l.split(" :: ", 1)[-1]})
+                recs = getattr(scan, "clone_classes", []) if scan is not None else []
+                if idx < len(recs):
+                    c = recs[idx]
+                    cc = c["copy"]
+                    pay.update({"class": c["name"], "declared_at": "%s:%d" % (c["file"], c["line"]), "bases": c["bases"],
+                                "data_members": ["%s %s (%s)" % (t, n, k) for n, t, k, _ in c["members"]],
+                                "copy_constructor": cc[0]})
+                    if cc[0] == "UserCopy":
+                        named = [i[1] for i in cc[3]]
+                        pay.update({"source": "%s:%d" % (cc[1], cc[2]), "initialisers": [" ".join(str(x) for x in i) for i in cc[3]],
+                                    "body": cc[5] or "(empty)",
+                                    "members_missing_from_the_initialiser_list": [n for n, _, _, _ in c["members"] if n not in named],
+                                    "bases_missing_or_without_other": [b for b in c["bases"] if ("IBase", b, True) not in cc[3]],
+                                    "meaning": "clone() of every class below copy-constructs through this constructor: a member that is not "
+                                               "copied / deep-cloned from `other` (or re-created in the body) does not carry the state of the "
+                                               "original (C19_clone_forgotten_member_refuted / C19_clone_base_not_passed_refuted)",
+                                    "replay": "configure the component / member of an object of a class derived from %s, clone it, compare" % c["name"]})
             r.violation("table-%d" % k, pay)
         for k, l in enumerate(factmis[:3]):
             r.violation("facttab-%d" % k, {"kind": "a factory object of the compiled library registers other parameters than the table regenerated from the "
@@ -303,7 +385,18 @@ def run(tier, replay=None):
                                            "meaning": "either the generator mis-reads the source (the theorems would then speak about another table than "
                                                       "the library) or the library computes the registered values differently from the declaration; "
                                                       "concrete input: <factory>::all().get(<id>)->parameters() vs the source record(s) named in `case`"})
+        clonemis = [l for l in mout.split("\n") if l.startswith("MISMATCH CLONETAB")]
+        for k, l in enumerate(clonemis[:3]):
+            r.violation("clonetab-%d" % k, {"kind": "clone() of an object of the compiled library differs from clone() as the table regenerated from the "
+                                                    "source classifies it (dynamic class, every parameter, the owned line-search components of solvers)",
+                                            "case": l, "replay_cmd": replay_cmd + " | grep -E '^CLONED '",
+                                            "meaning": "the object was obtained from the factory, every parameter moved to another valid value (solvers: also "
+                                                       "with configured line-search components installed), then cloned: concrete input = the object printed in "
+                                                       "`case`; either the table mis-reads the source or the library's clone is not a copy"})
+        clonetab["unreached"] = [l.split(" ", 1)[1] for l in mout.split("\n") if l.startswith("CLONETAB-UNREACHED ")]
+        clonetab["done"] = next((l for l in mout.split("\n") if l.startswith("CLONETAB-DONE")), "")
     if scan is not None:
+        clonetab.update(c19_clones.summary(scan))
         facttab.update(c19_params.summary(scan))
     # UB probe (built with -fsanitize=float-cast-overflow together with the tree's src/parameter.cpp): since fix 0c6dfeb
     # every assignment of a non-convertible double must throw and src/parameter.cpp must not report any undefined
@@ -341,7 +434,9 @@ def run(tier, replay=None):
                          "std::stod / std::stoll of libstdc++ as parsing oracles (stoll additionally modelled and compared)",
                          "ocaml/c19_driver.ml, harness/c19_param.cpp, harness/c19_ubprobe.cpp, g++ (%s build)" % variant,
                          "tools/checks/c19_params.py (source parser -> coq/generated/Src_c19_params.v; tied by stage FACTTAB for factory objects, "
-                         "constants re-checked by the harness' CONST lines); extraction additionally uses ExtrOcamlString"])
+                         "constants re-checked by the harness' CONST lines); extraction additionally uses ExtrOcamlString",
+                         "tools/checks/c19_clones.py (source parser -> coq/generated/Src_c19_clones.v: clone() overrides, class chains, data members, "
+                         "copy constructors; tied by stage CLONETAB for factory objects and solver components; abi::__cxa_demangle class names as keys)"])
     cov = r.coverage
     ops = collections.Counter(l.split(" ", 1)[0] for l in proto)
     cfgops = collections.Counter(l.split(" ")[2] for l in proto if l.startswith("CFG ") and len(l.split(" ")) > 2 and l.split(" ")[1].isdigit())
@@ -386,14 +481,20 @@ def run(tier, replay=None):
         "int64<->double conversions i2f/f2i are executable definitions over PrimFloat (no exactness theorem): compared bit-exactly with static_cast on every numeric case",
         "factory clause: defaults in domain / unique names / constructor-body assignments are theorems about the table regenerated from the "
         "source and tied to the compiled library by stage FACTTAB; still implementation-side enumeration only: get(id) non-null, type_id == "
-        "registered id (FACTTAB additionally compares the statically resolved type id), clone equal + independent both ways, prototype "
-        "untouched, clone behaves identically for losses/functions",
+        "registered id (FACTTAB additionally compares the statically resolved type id), prototype untouched, clone behaves identically "
+        "for losses/functions (values / gradients); clone equal + independent is now ALSO a theorem about the clone table regenerated "
+        "from the source (C19_clones_copy_this, C19_copy_ctors_complete, C19_clone_object_equal_independent) tied by stage CLONETAB",
+        "clone table: value members are assumed to have deep copy constructors of their own (tensors, std::vector, std::string, "
+        "parameter lists: library / standard types, not parsed); the 14 clone() records no factory reaches and the copy constructors of "
+        "gboost_model_t / result_t / params_t / functional_t have no run-time counterpart in this check; copy assignment operators are not read",
         "source table: the 26 objects no factory returns and all parameter(\"name\") uses are checked against the table only (no run-time "
         "counterpart); range_ok (integer result type contains the declared range) and lossy (truncating read) are boolean checks on the "
         "declared bounds, not lifted to all reachable values in Coq; receivers the parser cannot resolve are listed, not checked",
         "operator== of parameters and the byte-level stream format are exercised through write+read only (codec is C15's subject)"]
     cov["ub_probe"] = probe
     cov["source_table"] = facttab
+    cov["clone_table"] = clonetab
+    cov["cloned_objects_compared"] = sum(1 for l in proto if l.startswith("CLONED "))
     cov["fixed_findings"] = ["fixed: 0c6dfeb static_cast<int64_t>(double) on NaN/inf/|v|>=2^63 in ::update (was UB; on x86-64 INT64_MIN was accepted "
                              "by domains containing it): now rejected; gated by the harness oracle, the model and the UB probe"]
     r.assumptions = ["the only undefined conversions left are outside the assignment path: make_integer*/make_scalar_ called with double "
